@@ -35,8 +35,16 @@ pub struct FnCx<'a> {
     pub monad: Monad, // monad used for fallible ops in this fn (Opt or Res)
     pub recv: Recv,
     pub output_ty: Option<Ty>, // Self::Output
-    pub scopes: Vec<HashMap<String, Ty>>,
+    /// name → (type, Lean term standing for the variable, if it is not simply its own sanitised name)
+    pub scopes: Vec<HashMap<String, (Ty, Option<String>)>>,
     pub tmp: usize,
+    /// (tokens of `arr`, loop variable `i`, Lean term): inside `for i in 0..arr.len()`, `arr[i]` is that term
+    pub idx_alias: Option<(String, String, String)>,
+    pub idx_alias_binds: usize,
+    /// the expression whose value is the function's result (final expression / operand of `return`), by address
+    pub fn_tail: Option<*const syn::Expr>,
+    pub cur_is_tail: bool,
+    pub capture_hit: bool,
     pub generics: Vec<String>,
     pub used_monad: bool,
     pub is_display: bool,
@@ -142,13 +150,47 @@ impl<'a> FnCx<'a> {
     pub fn lookup(&self, name: &str) -> Option<Ty> {
         for s in self.scopes.iter().rev() {
             if let Some(t) = s.get(name) {
-                return Some(t.clone());
+                return Some(t.0.clone());
             }
         }
         None
     }
+    /// Lean term for a variable in scope (closure parameters of unrolled folds are substituted, not let-bound)
+    pub fn lookup_val(&self, name: &str) -> String {
+        for s in self.scopes.iter().rev() {
+            if let Some(t) = s.get(name) {
+                return t.1.clone().unwrap_or_else(|| sanitize(name));
+            }
+        }
+        sanitize(name)
+    }
+    pub fn bind_val(&mut self, name: &str, ty: Ty, val: String) {
+        self.scopes.last_mut().unwrap().insert(name.to_string(), (ty, Some(val)));
+    }
+    /// type of an expression, without emitting anything (the translation is done into a scratch buffer)
+    pub fn probe_ty(&mut self, e: &syn::Expr) -> Ty {
+        let (tmp, used) = (self.tmp, self.used_monad);
+        let r = self.tr_expr(e, &mut vec![]).map(|x| x.ty).unwrap_or(Ty::Unknown);
+        self.tmp = tmp;
+        self.used_monad = used;
+        r
+    }
     pub fn bind(&mut self, name: &str, ty: Ty) {
-        self.scopes.last_mut().unwrap().insert(name.to_string(), ty);
+        if matches!(&self.idx_alias, Some((_, iv, _)) if iv == name) {
+            self.idx_alias_binds += 1;
+        }
+        // a new binder that occurs free in a substituted term (see `bind_val`) would capture it
+        let ln = sanitize(name);
+        let captured = self.scopes.iter().any(|sc| {
+            sc.values().any(|(_, v)| match v {
+                Some(val) => val.split(|c: char| !(c.is_alphanumeric() || c == '_' || c == '\'')).any(|tok| tok == ln),
+                None => false,
+            })
+        });
+        if captured {
+            self.capture_hit = true;
+        }
+        self.scopes.last_mut().unwrap().insert(name.to_string(), (ty, None));
     }
     fn resolve_struct(&self, name: &str) -> String {
         if name == "Self" {
@@ -253,6 +295,24 @@ impl<'a> FnCx<'a> {
                         Some(i) => i,
                         None => return err(l, "let without initialiser"),
                     };
+                    // `let PAT = match … { … => return …, … };` / `let PAT = if … { return … } else { … };`: no merge,
+                    // the binding and the rest of the sequence are continued inside every arm
+                    if init.diverge.is_none() && contains_return_expr(&init.expr) && matches!(strip_parens(&init.expr), syn::Expr::Match(_) | syn::Expr::If(_)) {
+                        return self.tr_branch_nomerge(strip_parens(&init.expr), Some(l), &stmts[i + 1..], k, lines);
+                    }
+                    // `let (a, b) = e;`
+                    let tuple_pat = match &l.pat {
+                        syn::Pat::Tuple(_) => Some(&l.pat),
+                        syn::Pat::Type(pt) if matches!(&*pt.pat, syn::Pat::Tuple(_)) => Some(&*pt.pat),
+                        _ => None,
+                    };
+                    if let Some(tp) = tuple_pat {
+                        if init.diverge.is_some() {
+                            return err(l, "let-else");
+                        }
+                        self.tr_let_tuple(tp, &init.expr, lines)?;
+                        continue;
+                    }
                     let (name, decl_ty) = match &l.pat {
                         syn::Pat::Ident(pi) => (pi.ident.to_string(), None),
                         syn::Pat::Type(pt) => match &*pt.pat {
@@ -273,8 +333,17 @@ impl<'a> FnCx<'a> {
                     let is_tail_value = last && semi.is_none();
                     // return
                     if let syn::Expr::Return(r) = e {
+                        // (inside a merged branch / block the continuation is not the function's: cannot be expressed)
+                        if !matches!(k, K::FnRet) {
+                            return err(e, "early return inside a block whose value is merged");
+                        }
                         let v = match &r.expr {
-                            Some(x) => Some(self.tr_expr(x, lines)?),
+                            Some(x) => {
+                                self.fn_tail = Some(strip_parens(x) as *const syn::Expr);
+                                let v = self.tr_expr(strip_parens(x), lines);
+                                self.fn_tail = None;
+                                Some(v?)
+                            }
                             None => None,
                         };
                         return Ok(Tail { expr: self.fn_result(v.as_ref()), is_comp: self.ret_is_res });
@@ -286,13 +355,24 @@ impl<'a> FnCx<'a> {
                             return self.tr_if_nomerge(ife, &stmts[i + 1..], k);
                         }
                     }
+                    // a `match` statement with a `return` in one of its arms: likewise
+                    if let syn::Expr::Match(_) = e {
+                        if contains_return_expr(e) && (semi.is_some() || !last) {
+                            return self.tr_branch_nomerge(e, None, &stmts[i + 1..], k, lines);
+                        }
+                    }
                     let wants_value = match k {
                         K::FnRet => !self.ret_unit,
                         K::Vars { value, .. } => *value,
                     };
                     let stmt_like = matches!(e, syn::Expr::ForLoop(_) | syn::Expr::Assign(_)) || matches!(e, syn::Expr::Binary(b) if is_compound(&b.op));
                     if is_tail_value && wants_value && !stmt_like {
-                        let v = self.tr_expr(e, lines)?;
+                        if matches!(k, K::FnRet) {
+                            self.fn_tail = Some(e as *const syn::Expr);
+                        }
+                        let v = self.tr_expr(e, lines);
+                        self.fn_tail = None;
+                        let v = v?;
                         return self.k_tail(k, Some(&v)).map_err(|(_, m)| (e.span().start().line, m));
                     }
                     self.tr_stmt_expr(e, lines)?;
@@ -314,9 +394,224 @@ impl<'a> FnCx<'a> {
         Ok(res)
     }
 
+    /// `let (a, b, _) = init;` — components become projections of the (let-bound) tuple value; a literal tuple on the
+    /// right is bound component-wise when no later component mentions an earlier pattern variable.
+    fn tr_let_tuple(&mut self, pat: &syn::Pat, init: &syn::Expr, lines: &mut Vec<Line>) -> R<()> {
+        let elems = match pat {
+            syn::Pat::Tuple(t) => &t.elems,
+            _ => return err(pat, "unsupported let pattern"),
+        };
+        if let syn::Expr::Tuple(te) = strip_parens(init) {
+            let flat = elems.iter().all(|p| matches!(p, syn::Pat::Ident(pi) if pi.by_ref.is_none() && pi.subpat.is_none()) || matches!(p, syn::Pat::Wild(_)));
+            let mut independent = te.elems.len() == elems.len();
+            for (i, p) in elems.iter().enumerate() {
+                if let syn::Pat::Ident(pi) = p {
+                    let n = pi.ident.to_string();
+                    if te.elems.iter().skip(i + 1).any(|v| mentions_ident(v, &n)) {
+                        independent = false;
+                    }
+                }
+            }
+            if flat && independent {
+                let mut vals = vec![];
+                for v in &te.elems {
+                    vals.push(self.tr_expr(v, lines)?);
+                }
+                for (p, v) in elems.iter().zip(vals.into_iter()) {
+                    if let syn::Pat::Ident(pi) = p {
+                        let name = pi.ident.to_string();
+                        let ln = sanitize(&name);
+                        if v.val != ln {
+                            self.pline(lines, &ln, v.val);
+                        }
+                        self.bind(&name, v.ty);
+                    }
+                }
+                return Ok(());
+            }
+        }
+        let e = self.tr_expr(init, lines)?;
+        self.bind_tuple(pat, e, lines)
+    }
+
+    fn bind_tuple(&mut self, pat: &syn::Pat, e: Ex, lines: &mut Vec<Line>) -> R<()> {
+        let elems = match pat {
+            syn::Pat::Tuple(t) => &t.elems,
+            _ => return err(pat, "unsupported let pattern"),
+        };
+        let tys = match &e.ty {
+            Ty::Tuple(ts) if ts.len() == elems.len() => ts.clone(),
+            other => return err(pat, format!("tuple pattern of {} components against a value of type {:?}", elems.len(), other)),
+        };
+        // a translator temporary (or a projection of one) can be projected directly; anything else is named first
+        let is_tmp = {
+            let head = e.val.split('.').next().unwrap_or("");
+            head.len() > 1 && head.starts_with('t') && head[1..].chars().all(|c| c.is_ascii_digit()) && e.val.split('.').skip(1).all(|p| p == "1" || p == "2")
+        };
+        let base = if is_tmp {
+            e.val.clone()
+        } else {
+            let t = self.fresh();
+            self.pline(lines, &t, e.val.clone());
+            t
+        };
+        let n = elems.len();
+        for (i, p) in elems.iter().enumerate() {
+            let pr = proj(&base, i, n);
+            match p {
+                syn::Pat::Wild(_) => {}
+                syn::Pat::Ident(pi) if pi.by_ref.is_none() && pi.subpat.is_none() => {
+                    let name = pi.ident.to_string();
+                    self.pline(lines, &sanitize(&name), pr);
+                    self.bind(&name, tys[i].clone());
+                }
+                syn::Pat::Tuple(_) => self.bind_tuple(p, Ex { val: pr, ty: tys[i].clone() }, lines)?,
+                _ => return err(p, "unsupported let pattern"),
+            }
+        }
+        Ok(())
+    }
+
+    /// statements of one arm of a no-merge branching: the arm's own statements, its value bound to the `let` pattern
+    /// (unless the arm diverges), then the rest of the enclosing sequence
+    fn arm_stmts(&self, body: &syn::Expr, bind: Option<&syn::Local>, arm_binds: &[String], rest: &[syn::Stmt]) -> R<Vec<syn::Stmt>> {
+        let mut stmts: Vec<syn::Stmt> = match strip_parens(body) {
+            syn::Expr::Block(b) if b.label.is_none() => b.block.stmts.clone(),
+            other => vec![syn::Stmt::Expr(other.clone(), None)],
+        };
+        let mut pat_names: Vec<String> = vec![];
+        if let Some(l) = bind {
+            crate::tr::scan_tokens(quote::ToTokens::to_token_stream(&l.pat), &mut |id, _| pat_names.push(id.to_string()));
+        }
+        // names the arm introduces (pattern variables, arm-local lets) that would capture a use in the rest
+        let mut introduced: Vec<String> = arm_binds.to_vec();
+        let n = stmts.len();
+        for st in stmts.iter().take(n.saturating_sub(1)) {
+            if let syn::Stmt::Local(l) = st {
+                crate::tr::scan_tokens(quote::ToTokens::to_token_stream(&l.pat), &mut |id, _| introduced.push(id.to_string()));
+            }
+        }
+        for name in &introduced {
+            if pat_names.contains(name) {
+                continue;
+            }
+            for r in rest {
+                let mut hit = false;
+                crate::tr::scan_tokens(quote::ToTokens::to_token_stream(r), &mut |id, _| {
+                    if id == name {
+                        hit = true;
+                    }
+                });
+                if hit {
+                    return err(body, format!("arm-local name `{}` would capture a later use (early return in a branch)", name));
+                }
+            }
+        }
+        match stmts.pop() {
+            None => {
+                if bind.is_some() {
+                    return err(body, "empty arm used as a value");
+                }
+            }
+            Some(syn::Stmt::Expr(e, None)) => {
+                if matches!(e, syn::Expr::Return(_)) {
+                    stmts.push(syn::Stmt::Expr(e, Some(Default::default())));
+                } else if let Some(l) = bind {
+                    let mut l2 = l.clone();
+                    l2.init = Some(syn::LocalInit { eq_token: Default::default(), expr: Box::new(e), diverge: None });
+                    stmts.push(syn::Stmt::Local(l2));
+                } else {
+                    stmts.push(syn::Stmt::Expr(e, Some(Default::default())));
+                }
+            }
+            Some(other) => {
+                // `…;` as the last statement: the arm has type `()` (statement match) or diverges
+                if bind.is_some() && !matches!(&other, syn::Stmt::Expr(syn::Expr::Return(_), _)) {
+                    return err(body, "arm used as a value does not end in an expression");
+                }
+                stmts.push(other);
+            }
+        }
+        stmts.extend_from_slice(rest);
+        Ok(stmts)
+    }
+
+    /// `match` / `if` with an early `return` in an arm, as a statement or as the initialiser of a `let`
+    fn tr_branch_nomerge(&mut self, e: &syn::Expr, bind: Option<&syn::Local>, rest: &[syn::Stmt], k: &K, lines: &mut Vec<Line>) -> R<Tail> {
+        let wrap = |b: String| -> String {
+            if b.starts_with("match ") || b.starts_with("if ") || (b.contains('\n') && !b.starts_with('(')) {
+                format!("({})", b)
+            } else {
+                b
+            }
+        };
+        match e {
+            syn::Expr::Match(m) => {
+                let scrut = self.tr_expr(&m.expr, lines)?;
+                let mut arms: Vec<(String, Vec<Line>, Tail)> = vec![];
+                for arm in &m.arms {
+                    if arm.guard.is_some() {
+                        return err(arm, "match guard");
+                    }
+                    let mut binds = vec![];
+                    let pat = self.tr_pat(&arm.pat, &scrut.ty, &mut binds)?;
+                    let names: Vec<String> = binds.iter().map(|(n, _)| n.clone()).collect();
+                    let stmts = self.arm_stmts(&arm.body, bind, &names, rest)?;
+                    self.scopes.push(HashMap::new());
+                    for (n, t) in &binds {
+                        self.bind(n, t.clone());
+                    }
+                    let mut l = vec![];
+                    let t = self.tr_seq(&stmts, k, &mut l);
+                    self.scopes.pop();
+                    arms.push((format!("| {} =>", pat), l, t?));
+                }
+                let mon = arms.iter().any(|(_, l, t)| has_monadic(l, t));
+                let mut text = format!("match {} with\n", scrut.val);
+                for (h, l, t) in &arms {
+                    let b = wrap(render(l, t, mon));
+                    text.push_str(&format!("  {}\n{}\n", h, indent(&b, 4)));
+                }
+                Ok(Tail { expr: text.trim_end().to_string(), is_comp: mon })
+            }
+            syn::Expr::If(ife) => {
+                if matches!(&*ife.cond, syn::Expr::Let(_)) {
+                    return err(ife, "if-let with an early return used as a value");
+                }
+                let c = self.tr_cond(&ife.cond, lines)?;
+                let then_e = syn::Expr::Block(syn::ExprBlock { attrs: vec![], label: None, block: ife.then_branch.clone() });
+                let s1 = self.arm_stmts(&then_e, bind, &[], rest)?;
+                let s2 = match &ife.else_branch {
+                    Some((_, eb)) => self.arm_stmts(eb, bind, &[], rest)?,
+                    None => {
+                        if bind.is_some() {
+                            return err(ife, "if without else used as value");
+                        }
+                        rest.to_vec()
+                    }
+                };
+                let mut l1 = vec![];
+                let t1 = self.tr_seq(&s1, k, &mut l1)?;
+                let mut l2 = vec![];
+                let t2 = self.tr_seq(&s2, k, &mut l2)?;
+                let mon = has_monadic(&l1, &t1) || has_monadic(&l2, &t2);
+                let b1 = wrap(render(&l1, &t1, mon));
+                let b2 = wrap(render(&l2, &t2, mon));
+                Ok(Tail { expr: format!("if {} then {}\nelse {}", c, b1, b2), is_comp: mon })
+            }
+            _ => err(e, "not a branching expression"),
+        }
+    }
+
     fn tr_if_nomerge(&mut self, ife: &syn::ExprIf, rest: &[syn::Stmt], k: &K) -> R<Tail> {
         let mut pre = vec![];
-        let c = self.tr_cond(&ife.cond, &mut pre)?;
+        // canonical form: `if !c {A}; rest` is emitted as `if c then rest else A; rest` (see norm.rs, which does the
+        // same for an `if` that has an `else`)
+        let (cond_e, swap): (&syn::Expr, bool) = match strip_parens(&ife.cond) {
+            syn::Expr::Unary(u) if matches!(u.op, syn::UnOp::Not(_)) => (&*u.expr, true),
+            o => (o, false),
+        };
+        let c = self.tr_cond(cond_e, &mut pre)?;
         if !pre.is_empty() {
             return err(&ife.cond, "fallible condition in early-return if");
         }
@@ -338,6 +633,7 @@ impl<'a> FnCx<'a> {
         let m = has_monadic(&l1, &t1) || has_monadic(&l2, &t2);
         let b1 = render(&l1, &t1, m);
         let b2 = render(&l2, &t2, m);
+        let (b1, b2) = if swap { (b2, b1) } else { (b1, b2) };
         Ok(Tail { expr: format!("if {} then {}\nelse {}", c, b1, b2), is_comp: m })
     }
 
@@ -368,6 +664,44 @@ impl<'a> FnCx<'a> {
                 Ok(())
             }
             syn::Expr::ForLoop(f) => self.tr_for(f, lines),
+            // `arr[a..b].fill(c)`: the same `Rs.fill` as the index loop
+            syn::Expr::MethodCall(mc) if mc.method == "fill" && mc.args.len() == 1 && is_range_index(&mc.receiver) => {
+                let tgt = match self.fill_target(&mc.receiver, lines)? {
+                    Some(t) => t,
+                    None => return err(mc, "fill on something other than (a sub-slice of) a boxed-slice field"),
+                };
+                let mark = lines.len();
+                let c = self.tr_expr(&mc.args[0], lines)?;
+                if lines.len() != mark && !tgt.guard {
+                    return err(mc, "fallible fill value");
+                }
+                self.emit_fill(tgt, c, mc.span().start().line, lines)
+            }
+            // `arr.iter_mut().for_each(|x| *x = c)` / `arr[a..b].iter_mut().for_each(|x| *x = c)`: idem
+            syn::Expr::MethodCall(mc) if mc.method == "for_each" && mc.args.len() == 1 && matches!(strip_parens(&mc.receiver), syn::Expr::MethodCall(i) if i.method == "iter_mut") => {
+                let cl = match &mc.args[0] {
+                    syn::Expr::Closure(c) if c.inputs.len() == 1 && c.capture.is_none() => c,
+                    _ => return err(mc, "for_each argument is not a one-parameter closure"),
+                };
+                let var = match &cl.inputs[0] {
+                    syn::Pat::Ident(pi) if pi.by_ref.is_none() => pi.ident.to_string(),
+                    _ => return err(mc, "for_each closure parameter pattern"),
+                };
+                let value = match deref_store(&cl.body, &var) {
+                    Some(v) => v,
+                    None => return err(mc, "iter_mut().for_each body is not `*x = value`"),
+                };
+                let tgt = match self.fill_target(&mc.receiver, lines)? {
+                    Some(t) => t,
+                    None => return err(mc, "iter_mut() on something other than (a sub-slice of) a boxed-slice field"),
+                };
+                let mark = lines.len();
+                let c = self.tr_expr(value, lines)?;
+                if lines.len() != mark {
+                    return err(mc, "fallible fill value");
+                }
+                self.emit_fill(tgt, c, mc.span().start().line, lines)
+            }
             syn::Expr::MethodCall(mc) if mc.method == "fill" && mc.args.len() == 1 => {
                 let (root, path) = self.field_path(&mc.receiver)?;
                 let base = self.tr_expr(&mc.receiver, lines)?;
@@ -392,6 +726,79 @@ impl<'a> FnCx<'a> {
             syn::Expr::Paren(p) => self.tr_stmt_expr(&p.expr, lines),
             _ => err(e, "unsupported statement"),
         }
+    }
+
+    /// A mutable view of (a sub-range of) a boxed-slice place: `A`, `A[a..b]`, `&mut …`, `….iter_mut()`.
+    /// Emits the evaluation of the bounds. `guard` = the slice expression itself can panic in a way `Rs.fill` would
+    /// not reproduce (`a > b`, or `a = b > len`): only possible when the range has a non-zero start.
+    fn fill_target(&mut self, e: &syn::Expr, lines: &mut Vec<Line>) -> R<Option<FillTarget>> {
+        let mut e = strip_parens(e);
+        loop {
+            match e {
+                syn::Expr::Reference(r) if r.mutability.is_some() => e = strip_parens(&r.expr),
+                syn::Expr::MethodCall(m) if m.method == "iter_mut" && m.args.is_empty() => e = strip_parens(&m.receiver),
+                syn::Expr::Unary(u) if matches!(u.op, syn::UnOp::Deref(_)) => e = strip_parens(&u.expr),
+                _ => break,
+            }
+        }
+        let (arr, range) = match e {
+            syn::Expr::Index(ix) => match &*ix.index {
+                syn::Expr::Range(r) => (strip_parens(&ix.expr), Some(r)),
+                _ => return Ok(None),
+            },
+            o => (o, None),
+        };
+        let (root, path) = match self.field_path(arr) {
+            Ok(x) => x,
+            Err(_) => return Ok(None),
+        };
+        if self.probe_ty(arr) != Ty::Arr {
+            return Ok(None);
+        }
+        let base = self.tr_expr(arr, lines)?;
+        let size = Ex { val: format!("{}.size", paren(&base.val)), ty: Ty::Usize };
+        let zero = Ex { val: "0".into(), ty: Ty::Usize };
+        let (a, b, guard) = match range {
+            None => (zero, size, false),
+            Some(r) => {
+                if !matches!(r.limits, syn::RangeLimits::HalfOpen(_)) {
+                    return err(r, "inclusive range");
+                }
+                let (a, guard) = match &r.start {
+                    None => (zero, false),
+                    Some(s) => {
+                        let lit0 = matches!(strip_parens(s), syn::Expr::Lit(l) if matches!(&l.lit, syn::Lit::Int(i) if i.base10_digits() == "0"));
+                        (self.tr_expr(s, lines)?, !lit0)
+                    }
+                };
+                let b = match &r.end {
+                    None => size,
+                    Some(x) => self.tr_expr(x, lines)?,
+                };
+                if a.ty != Ty::Usize || b.ty != Ty::Usize {
+                    return err(r, "range bounds");
+                }
+                (a, b, guard)
+            }
+        };
+        if guard {
+            let t = self.fresh();
+            let call = self.lift(format!("Rs.slice {} {} {}", paren(&base.val), paren(&a.val), paren(&b.val)));
+            self.mline(lines, &format!("{} : List F", t), call);
+        }
+        Ok(Some(FillTarget { root, path, base, a, b, guard }))
+    }
+
+    fn emit_fill(&mut self, tgt: FillTarget, c: Ex, line: usize, lines: &mut Vec<Line>) -> R<()> {
+        if c.ty != Ty::F64 {
+            return Err((line, "fill with a non-f64".into()));
+        }
+        let t = self.fresh();
+        let call = self.lift(format!("Rs.fill {} {} {} {}", paren(&tgt.base.val), paren(&tgt.a.val), paren(&tgt.b.val), paren(&c.val)));
+        self.mline(lines, &t, call);
+        let upd = self.nested_update(&tgt.root, &tgt.path, &t);
+        self.pline(lines, &tgt.root, upd);
+        Ok(())
     }
 
     fn assign(&mut self, place: &syn::Expr, v: Ex, lines: &mut Vec<Line>) -> R<()> {
@@ -428,6 +835,18 @@ impl<'a> FnCx<'a> {
                 Ok(())
             }
             syn::Expr::Paren(p) => self.assign(&p.expr, v, lines),
+            // `*self = v` (and `*(place) = v` after the substitution of a `&mut` loop variable): a whole-value store
+            syn::Expr::Unary(u) if matches!(u.op, syn::UnOp::Deref(_)) => {
+                let inner = strip_parens(&u.expr);
+                let pt = self.probe_ty(inner);
+                if pt == Ty::Unknown || !(v.ty == pt || matches!((&v.ty, &pt), (Ty::Opt(_), Ty::Opt(_)))) {
+                    return err(place, format!("store of {:?} through a reference to {:?}", v.ty, pt));
+                }
+                match inner {
+                    syn::Expr::Path(_) | syn::Expr::Field(_) => self.assign(inner, v, lines),
+                    _ => err(place, "unsupported assignment target"),
+                }
+            }
             _ => err(place, "unsupported assignment target"),
         }
     }
@@ -527,7 +946,10 @@ impl<'a> FnCx<'a> {
                             Tail { expr: self.k_result(&k, None)?, is_comp: false }
                         }
                     };
-                    arms.push(("| _ =>".into(), l2, t2));
+                    // `if let Some(x) = o {A} else {B}` is `match o { Some(x) => A, None => B }`: same arms
+                    let some_of_ident = is_some_of_ident(&le.pat);
+                    let else_pat = if some_of_ident && matches!(scrut.ty, Ty::Opt(_)) { "| none =>" } else { "| _ =>" };
+                    arms.push((else_pat.into(), l2, t2));
                     shape = format!("match {} with", scrut.val);
                 } else {
                     let c = self.tr_cond(&ife.cond, lines)?;
@@ -788,16 +1210,64 @@ impl<'a> FnCx<'a> {
                     }
                 }
             }
-            return err(f, "unsupported range loop (only `for i in a..b { arr[i] = const; }`)");
+            return self.tr_range_loop(f, r, lines);
+        }
+        // shape (a'): `for x in arr[a..b].iter_mut() { *x = c; }` / `for x in &mut arr[a..b] { *x = c; }`: the same `Rs.fill`
+        let src = strip_parens(&f.expr);
+        let is_mut_view = matches!(src, syn::Expr::Reference(r) if r.mutability.is_some()) || matches!(src, syn::Expr::MethodCall(m) if m.method == "iter_mut" && m.args.is_empty());
+        if is_mut_view {
+            let var = match &*f.pat {
+                syn::Pat::Ident(pi) if pi.by_ref.is_none() => pi.ident.to_string(),
+                _ => return err(f, "loop pattern"),
+            };
+            let body = syn::Expr::Block(syn::ExprBlock { attrs: vec![], label: None, block: f.body.clone() });
+            let value = match deref_store(&body, &var) {
+                Some(v) => v,
+                None => return err(f, "unsupported loop over a mutable view (only `{ *x = value; }`)"),
+            };
+            let tgt = match self.fill_target(src, lines)? {
+                Some(t) => t,
+                None => return err(f, "mutable loop over something other than (a sub-slice of) a boxed-slice field"),
+            };
+            let mark = lines.len();
+            let c = self.tr_expr(value, lines)?;
+            if lines.len() != mark {
+                return err(f, "fallible fill value");
+            }
+            return self.emit_fill(tgt, c, f.span().start().line, lines);
+        }
+        // shape (d): `for x in [e1, …, en] { body }` — unrolled: `body[x := e1]; …; body[x := en]`
+        if let syn::Expr::Array(arr) = src {
+            return self.tr_array_loop(f, arr, lines);
         }
         // element source
-        let (list, elem_binds): (String, Vec<(String, String, Ty)>) = match &*f.expr {
-            // for v in &slice
-            syn::Expr::Reference(_) | syn::Expr::Index(_) => {
-                let e = self.tr_expr(&f.expr, lines)?;
-                if e.ty != Ty::Slice {
-                    return err(f, "for over a non-slice");
+        // `slice.iter()`, `slice.iter().copied()`, `slice.iter().cloned()` and `&slice` are the same sequence of elements
+        let mut src = strip_parens(&f.expr);
+        let is_enumerate = matches!(src, syn::Expr::MethodCall(mc) if mc.method == "enumerate");
+        if !is_enumerate {
+            let mut saw_iter = false;
+            loop {
+                match src {
+                    syn::Expr::MethodCall(mc) if !saw_iter && mc.args.is_empty() && (mc.method == "copied" || mc.method == "cloned") && matches!(strip_parens(&mc.receiver), syn::Expr::MethodCall(i) if i.method == "iter") => {
+                        src = strip_parens(&mc.receiver)
+                    }
+                    syn::Expr::MethodCall(mc) if !saw_iter && mc.args.is_empty() && mc.method == "iter" => {
+                        saw_iter = true;
+                        src = strip_parens(&mc.receiver)
+                    }
+                    _ => break,
                 }
+            }
+        }
+        let (list, elem_binds): (String, Vec<(String, String, Ty)>) = match src {
+            // for v in &slice
+            syn::Expr::Reference(_) | syn::Expr::Index(_) | syn::Expr::Path(_) | syn::Expr::Field(_) => {
+                let e = self.tr_expr(src, lines)?;
+                let e = match e.ty {
+                    Ty::Slice => e,
+                    Ty::Arr => Ex { val: format!("{}.toList", paren(&e.val)), ty: Ty::Slice },
+                    _ => return err(f, "for over a non-slice"),
+                };
                 let name = match &*f.pat {
                     syn::Pat::Ident(pi) => pi.ident.to_string(),
                     syn::Pat::Reference(r) => match &*r.pat {
@@ -843,20 +1313,149 @@ impl<'a> FnCx<'a> {
             }
             _ => return err(f, "unsupported loop source"),
         };
+        self.tr_fold(f, list, elem_binds, false, lines)
+    }
+
+    /// `for x in [&mut p1, …, &mut pn] { body }` (also `&p`, and plain values, which are evaluated up front): the body is
+    /// instantiated once per element, the loop variable replaced by the place (resp. by the name of the evaluated value).
+    fn tr_array_loop(&mut self, f: &syn::ExprForLoop, arr: &syn::ExprArray, lines: &mut Vec<Line>) -> R<()> {
+        let var = match &*f.pat {
+            syn::Pat::Ident(pi) if pi.by_ref.is_none() && pi.subpat.is_none() => pi.ident.to_string(),
+            _ => return err(f, "loop pattern"),
+        };
         let body_expr = syn::Expr::Block(syn::ExprBlock { attrs: vec![], label: None, block: f.body.clone() });
+        if contains_return_expr(&body_expr) {
+            return err(f, "return inside a loop");
+        }
+        // what the loop variable stands for in each round
+        let mut reps: Vec<proc_macro2::TokenStream> = vec![];
+        self.scopes.push(HashMap::new());
+        let r = (|| -> R<()> {
+            for e in &arr.elems {
+                match strip_parens(e) {
+                    syn::Expr::Reference(r) => {
+                        let place = strip_parens(&r.expr);
+                        if self.field_path(place).is_err() {
+                            return err(e, "array-loop element is a reference to something other than a variable or field");
+                        }
+                        let toks = quote::ToTokens::to_token_stream(place);
+                        reps.push(quote::quote!((#toks)));
+                    }
+                    other => {
+                        // by-value element: evaluated before the first round
+                        let v = self.tr_expr(other, lines)?;
+                        let t = self.fresh();
+                        self.pline(lines, &t, v.val);
+                        self.bind(&t, v.ty);
+                        let id = syn::Ident::new(&t, e.span());
+                        reps.push(quote::quote!(#id));
+                    }
+                }
+            }
+            let body_toks = quote::ToTokens::to_token_stream(&f.body);
+            let flat = !f.body.stmts.iter().any(|st| matches!(st, syn::Stmt::Local(_)));
+            for rep in &reps {
+                let inst = subst_ident(body_toks.clone(), &var, rep);
+                let block: syn::Block = match syn::parse2(inst) {
+                    Ok(b) => b,
+                    Err(_) => return err(f, "loop variable used in a position where it cannot be replaced by the element"),
+                };
+                if flat {
+                    // no top-level `let` in the body: the statements are simply laid out one round after the other
+                    let stmts = one_with_semi(&block.stmts);
+                    let k = K::Vars { value: false, vars: vec![] };
+                    self.tr_seq(&stmts, &k, lines)?;
+                } else {
+                    let be = syn::Expr::Block(syn::ExprBlock { attrs: vec![], label: None, block });
+                    self.tr_branching(&be, false, lines)?;
+                }
+            }
+            Ok(())
+        })();
+        self.scopes.pop();
+        r.map_err(|(l, m)| (if l <= 1 { f.span().start().line } else { l }, m))
+    }
+
+    /// general index loop `for i in a..b { body }`.
+    /// * `for i in 0..arr.len()` whose body is total once `arr[i]` is known to be in bounds becomes the SAME
+    ///   `List.foldl … (Rs.enumerate arr)` as `for (i, &v) in arr.iter().enumerate()` (with `arr[i]` for `v`);
+    /// * anything else becomes `List.foldlM` (in the panic monad) over `List.range' a (b - a)`, the state being the tuple
+    ///   of assigned variables (`self` included). `a..b` with `a > b` is empty in Rust and in `List.range'`.
+    fn tr_range_loop(&mut self, f: &syn::ExprForLoop, r: &syn::ExprRange, lines: &mut Vec<Line>) -> R<()> {
+        let (a, b) = match (&r.start, &r.end, &r.limits) {
+            (Some(a), Some(b), syn::RangeLimits::HalfOpen(_)) => (a, b),
+            _ => return err(f, "unsupported range loop (only half-open `a..b`)"),
+        };
+        let iv = match &*f.pat {
+            syn::Pat::Ident(pi) if pi.by_ref.is_none() && pi.subpat.is_none() => pi.ident.to_string(),
+            _ => return err(f, "loop pattern"),
+        };
+        let body_expr = syn::Expr::Block(syn::ExprBlock { attrs: vec![], label: None, block: f.body.clone() });
+        // enumerate shape
+        let lit0 = matches!(strip_parens(a), syn::Expr::Lit(l) if matches!(&l.lit, syn::Lit::Int(i) if i.base10_digits() == "0"));
+        if lit0 {
+            if let syn::Expr::MethodCall(mc) = strip_parens(b) {
+                let arr = strip_parens(&mc.receiver);
+                if mc.method == "len" && mc.args.is_empty() && self.field_path(arr).is_ok() && self.probe_ty(arr) == Ty::Arr {
+                    let (root, _) = self.field_path(arr)?;
+                    let vars = self.outer_assigned(&body_expr);
+                    if !vars.iter().any(|v| sanitize(v) == root || *v == iv) {
+                        let (tmp, used, mark) = (self.tmp, self.used_monad, lines.len());
+                        let base = self.tr_expr(arr, lines)?;
+                        let key = quote::ToTokens::to_token_stream(arr).to_string();
+                        let xn = lambda_name("x", &body_expr);
+                        let saved = self.idx_alias.replace((key, iv.clone(), format!("{}.2", xn)));
+                        let saved_binds = std::mem::replace(&mut self.idx_alias_binds, 0);
+                        let res = self.tr_fold(f, format!("(Rs.enumerate {})", paren(&base.val)), vec![(iv.clone(), "x.1".into(), Ty::Usize)], false, lines);
+                        self.idx_alias = saved;
+                        self.idx_alias_binds = saved_binds;
+                        match res {
+                            Ok(()) => return Ok(()),
+                            Err(_) => {
+                                self.tmp = tmp;
+                                self.used_monad = used;
+                                lines.truncate(mark);
+                            }
+                        }
+                    }
+                }
+            }
+        }
+        let ea = self.tr_expr(a, lines)?;
+        let eb = self.tr_expr(b, lines)?;
+        if ea.ty != Ty::Usize || eb.ty != Ty::Usize {
+            return err(f, "range bounds are not usize");
+        }
+        let list = format!("(List.range' {} ({} - {}))", paren(&ea.val), paren(&eb.val), paren(&ea.val));
+        self.tr_fold(f, list, vec![(iv, "x".into(), Ty::Usize)], true, lines)
+    }
+
+    /// a loop as a left fold over `list`; the accumulator is the tuple of variables the body assigns
+    fn tr_fold(&mut self, f: &syn::ExprForLoop, list: String, elem_binds: Vec<(String, String, Ty)>, monadic_ok: bool, lines: &mut Vec<Line>) -> R<()> {
+        let body_expr = syn::Expr::Block(syn::ExprBlock { attrs: vec![], label: None, block: f.body.clone() });
+        if contains_return_expr(&body_expr) {
+            return err(f, "return inside a loop");
+        }
         let vars = self.outer_assigned(&body_expr);
         if vars.is_empty() {
             return err(f, "loop without effect");
         }
-        if vars.iter().any(|v| v == "self") {
+        if !monadic_ok && vars.iter().any(|v| v == "self") {
             return err(f, "loop body mutates self (only accumulator locals supported)");
         }
+        if elem_binds.iter().any(|(n, _, _)| vars.contains(n)) {
+            return err(f, "loop variable assigned in the loop body");
+        }
         let n = vars.len();
+        // names of the fold's λ-parameters: `acc` / `x` unless the body already uses such a name
+        let xn = lambda_name("x", &body_expr);
+        let an = lambda_name("acc", &body_expr);
+        let elem_binds: Vec<(String, String, Ty)> = elem_binds.into_iter().map(|(n, src, ty)| (n, format!("{}{}", xn, &src[1..]), ty)).collect();
         self.scopes.push(HashMap::new());
         let mut bl: Vec<Line> = vec![];
         for (i, v) in vars.iter().enumerate() {
             if n > 1 {
-                bl.push(Line { text: format!("let {} := {}", sanitize(v), proj("acc", i, n)), monadic: false });
+                bl.push(Line { text: format!("let {} := {}", sanitize(v), proj(&an, i, n)), monadic: false });
             }
         }
         for (name, src, ty) in &elem_binds {
@@ -867,18 +1466,27 @@ impl<'a> FnCx<'a> {
         let tail = self.tr_seq(&f.body.stmts, &k, &mut bl);
         self.scopes.pop();
         let tail = tail?;
-        if has_monadic(&bl, &tail) {
+        let mon = has_monadic(&bl, &tail);
+        if mon && !monadic_ok {
             return err(f, "fallible operation inside loop body");
         }
-        let body = render(&bl, &tail, false);
-        let accname = if n > 1 { "acc".to_string() } else { sanitize(&vars[0]) };
+        let body = render(&bl, &tail, mon);
+        let accname = if n > 1 { an.clone() } else { sanitize(&vars[0]) };
         let init = if n > 1 { format!("({})", vars.iter().map(|v| sanitize(v)).collect::<Vec<_>>().join(", ")) } else { sanitize(&vars[0]) };
-        let fold = format!("List.foldl (fun {} x =>\n{}) {} {}", accname, indent(&body, 4), init, paren(&list));
+        let fold = format!("List.{} (fun {} {} =>\n{}) {} {}", if mon { "foldlM" } else { "foldl" }, accname, xn, indent(&body, 4), init, paren(&list));
         if n == 1 {
-            self.pline(lines, &sanitize(&vars[0]), fold);
+            if mon {
+                self.mline(lines, &sanitize(&vars[0]), fold);
+            } else {
+                self.pline(lines, &sanitize(&vars[0]), fold);
+            }
         } else {
             let t = self.fresh();
-            self.pline(lines, &t, fold);
+            if mon {
+                self.mline(lines, &t, fold);
+            } else {
+                self.pline(lines, &t, fold);
+            }
             for (i, v) in vars.iter().enumerate() {
                 let p = proj(&t, i, n);
                 self.pline(lines, &sanitize(v), p);
@@ -957,7 +1565,7 @@ impl<'a> FnCx<'a> {
                         return Ok(Ex { val: "none".into(), ty: Ty::Opt(Box::new(Ty::Unknown)) });
                     }
                     if let Some(t) = self.lookup(n) {
-                        return Ok(Ex { val: sanitize(n), ty: t });
+                        return Ok(Ex { val: self.lookup_val(n), ty: t });
                     }
                     return err(p, format!("unknown identifier {}", n));
                 }
@@ -998,6 +1606,13 @@ impl<'a> FnCx<'a> {
                 }
             }
             syn::Expr::Index(ix) => {
+                // inside `for i in 0..arr.len()`: `arr[i]` is the element the fold is looking at (always in bounds)
+                if let Some((key, iv, val)) = &self.idx_alias {
+                    // (`idx_alias_binds` > 1: the loop variable has been shadowed somewhere in the body — give up the alias)
+                    if self.idx_alias_binds == 1 && matches!(strip_parens(&ix.index), syn::Expr::Path(p) if p.path.is_ident(iv.as_str())) && quote::ToTokens::to_token_stream(strip_parens(&ix.expr)).to_string() == *key {
+                        return Ok(Ex { val: val.clone(), ty: Ty::F64 });
+                    }
+                }
                 let b = self.tr_expr(&ix.expr, lines)?;
                 if b.ty != Ty::Arr {
                     return err(ix, "indexing a non-array");
@@ -1128,9 +1743,6 @@ impl<'a> FnCx<'a> {
                     self.resolve_struct(&last)
                 };
                 let si = self.t.structs.get(&sname).ok_or((s.span().start().line, format!("unknown struct {}", sname)))?.clone();
-                if s.rest.is_some() {
-                    return err(s, "struct update syntax");
-                }
                 let mut parts = vec![];
                 for fv in &s.fields {
                     let fname = match &fv.member {
@@ -1140,6 +1752,17 @@ impl<'a> FnCx<'a> {
                     let fld = si.fields.iter().find(|x| x.name == fname).ok_or((fv.span().start().line, format!("no field {}", fname)))?;
                     let v = self.tr_expr(&fv.expr, lines)?;
                     parts.push(format!("{} := {}", fld.lean, v.val));
+                }
+                // struct update syntax `S { f: v, ..base }` (the base is evaluated after the fields)
+                if let Some(rest) = &s.rest {
+                    let base = self.tr_expr(rest, lines)?;
+                    if base.ty != Ty::Struct(sname.clone()) {
+                        return err(s, format!("struct update from a value of type {:?}", base.ty));
+                    }
+                    if parts.is_empty() {
+                        return Ok(base);
+                    }
+                    return Ok(Ex { val: format!("{{ {} with {} }}", paren(&base.val), parts.join(", ")), ty: Ty::Struct(sname) });
                 }
                 if parts.len() != si.fields.len() {
                     return err(s, "struct literal does not set every field");
@@ -1161,7 +1784,10 @@ impl<'a> FnCx<'a> {
                 }
             }
             syn::Expr::Call(c) => self.tr_call(c, lines),
-            syn::Expr::MethodCall(m) => self.tr_method(m, lines),
+            syn::Expr::MethodCall(m) => {
+                self.cur_is_tail = self.fn_tail == Some(e as *const syn::Expr);
+                self.tr_method(m, lines)
+            }
             syn::Expr::Macro(m) => self.tr_macro(&m.mac, lines),
             syn::Expr::Assign(_) => err(e, "assignment used as a value"),
             _ => err(e, "unsupported expression"),
@@ -1173,6 +1799,62 @@ impl<'a> FnCx<'a> {
             syn::Expr::Path(p) => p.path.segments.iter().map(|s| s.ident.to_string()).collect::<Vec<_>>(),
             _ => return err(c, "call of a non-path"),
         };
+        // `std::mem::replace(&mut place, v)` ≡ `{ let old = place; place = v; old }` (the place is evaluated —
+        // bounds-checked — first, then `v`; `v` cannot touch the place, which is mutably borrowed)
+        let n = path.len();
+        if n >= 2 && path[n - 2] == "mem" && path[n - 1] == "replace" && c.args.len() == 2 && (n == 2 || (n == 3 && (path[0] == "std" || path[0] == "core"))) {
+            let place = match &c.args[0] {
+                syn::Expr::Reference(r) if r.mutability.is_some() => strip_parens(&r.expr),
+                _ => return err(c, "mem::replace: first argument is not `&mut place`"),
+            };
+            let old = self.tr_expr(place, lines)?;
+            // the old value must not be an expression that mentions the (about to be shadowed) root
+            let old = if matches!(place, syn::Expr::Index(_)) {
+                old
+            } else {
+                let t = self.fresh();
+                self.pline(lines, &t, old.val);
+                Ex { val: t, ty: old.ty }
+            };
+            let v = self.tr_expr(&c.args[1], lines)?;
+            if !(v.ty == old.ty || v.ty == Ty::Unknown || matches!((&v.ty, &old.ty), (Ty::Opt(_), Ty::Opt(_)))) {
+                return err(c, format!("mem::replace: value type {:?} differs from the place type {:?}", v.ty, old.ty));
+            }
+            self.assign(place, v, lines)?;
+            return Ok(old);
+        }
+        // UFCS: `Trait::method(recv, args…)` / `Trait::<A>::method(recv, args…)` / `Type::method(recv, args…)` ≡ `recv.method(args…)`
+        if n == 2 && !c.args.is_empty() {
+            let head = self.resolve_struct(&path[0]);
+            const TRAITS: &[&str] = &["Next", "Reset", "Period", "Clone", "Open", "High", "Low", "Close", "Volume"];
+            let is_trait = TRAITS.contains(&path[0].as_str()) && !self.t.structs.contains_key(&head);
+            let is_method_of_type = !is_trait
+                && self.t.structs.contains_key(&head)
+                && self.t.sigs.values().any(|s| s.owner == head && s.rust_name == path[1] && s.recv != Recv::None && s.params.len() + 1 == c.args.len());
+            if is_trait || is_method_of_type {
+                let recv = match &c.args[0] {
+                    syn::Expr::Reference(r) => strip_parens(&r.expr).clone(),
+                    o => strip_parens(o).clone(),
+                };
+                let mc = syn::ExprMethodCall {
+                    attrs: vec![],
+                    receiver: Box::new(recv),
+                    dot_token: Default::default(),
+                    method: syn::Ident::new(&path[1], c.span()),
+                    turbofish: None,
+                    paren_token: Default::default(),
+                    args: c.args.iter().skip(1).cloned().collect(),
+                };
+                if is_method_of_type {
+                    // `Type::method(recv, …)`: the receiver must really be of that type
+                    let rt = self.probe_ty(&mc.receiver);
+                    if rt != Ty::Struct(head.clone()) {
+                        return err(c, format!("{}::{} called on a receiver of type {:?}", head, path[1], rt));
+                    }
+                }
+                return self.tr_method(&mc, lines);
+            }
+        }
         let mut args = vec![];
         for a in &c.args {
             args.push(self.tr_expr(a, lines)?);
@@ -1211,6 +1893,13 @@ impl<'a> FnCx<'a> {
     fn apply(&mut self, sig: &FnSig, recv: Option<(Option<(String, Vec<String>)>, Ex)>, args: Vec<Ex>, line: usize, lines: &mut Vec<Line>) -> R<Ex> {
         if args.len() != sig.params.len() {
             return Err((line, format!("arity mismatch calling {}", sig.lean_name)));
+        }
+        let mut args = args;
+        for (a, (_, pt)) in args.iter_mut().zip(sig.params.iter()) {
+            // `&boxed_slice` where a `&[f64]` is expected (deref coercion)
+            if *pt == Ty::Slice && a.ty == Ty::Arr {
+                *a = Ex { val: format!("{}.toList", paren(&a.val)), ty: Ty::Slice };
+            }
         }
         for (a, (_, pt)) in args.iter().zip(sig.params.iter()) {
             let ok = a.ty == *pt || a.ty == Ty::Unknown || matches!((&a.ty, pt), (Ty::Opt(_), Ty::Opt(_)));
@@ -1276,6 +1965,76 @@ impl<'a> FnCx<'a> {
             }
             return err(m, "into_boxed_slice on a non-vec");
         }
+        // `.clone()` of plain data / of a struct that derives Clone (a hand-written Clone is a purity-gate reject): identity
+        if name == "clone" && m.args.is_empty() {
+            let r = self.tr_expr(&m.receiver, lines)?;
+            let ok = match &r.ty {
+                Ty::F64 | Ty::Usize | Ty::Bool | Ty::Arr => true,
+                Ty::Opt(t) => matches!(**t, Ty::F64 | Ty::Usize | Ty::Bool),
+                Ty::Struct(s) => self.t.structs.get(s).map(|si| si.derives.iter().any(|d| d == "Clone")).unwrap_or(false) && !self.t.impls.iter().any(|i| i.ty == *s && i.trait_ == "Clone"),
+                _ => false,
+            };
+            if !ok {
+                return err(m, format!("clone of {:?} (not plain data with a derived Clone)", r.ty));
+            }
+            return Ok(r);
+        }
+        let is_tail = std::mem::replace(&mut self.cur_is_tail, false);
+        // `xs.iter().fold(init, |acc, &x| body)` (also `.iter().copied().fold`, `.into_iter().fold`)
+        if name == "fold" && m.args.len() == 2 {
+            return self.tr_iter_fold(m, lines);
+        }
+        // `r.map(|x| body)` / `r.and_then(|x| body)` on a `Result`, inside a `Result`-returning function: the bind of the
+        // three-valued `Res` monad (an `Err` and a panic both pass through). As the function's final value it is written
+        // exactly like `Ok(body[x := r?])`; elsewhere it is a nested `do` block of type `Res _`.
+        if (name == "map" || name == "and_then") && m.args.len() == 1 && self.monad == Monad::Res {
+            if let Ty::Res(inner) = self.probe_ty(&m.receiver) {
+                let cl = match strip_parens(&m.args[0]) {
+                    syn::Expr::Closure(c) if c.inputs.len() == 1 && c.capture.is_none() => c,
+                    _ => return err(m, format!("{}: argument is not a one-parameter closure", name)),
+                };
+                let pname = match &cl.inputs[0] {
+                    syn::Pat::Ident(pi) if pi.by_ref.is_none() && pi.subpat.is_none() => pi.ident.to_string(),
+                    syn::Pat::Type(pt) => match &*pt.pat {
+                        syn::Pat::Ident(pi) if pi.by_ref.is_none() && pi.subpat.is_none() => pi.ident.to_string(),
+                        _ => return err(m, "closure parameter pattern"),
+                    },
+                    _ => return err(m, "closure parameter pattern"),
+                };
+                let r = self.tr_expr(&m.receiver, lines)?;
+                let wrap = |name: &str, b: Ex| -> R<Ex> {
+                    if name == "map" {
+                        Ok(Ex { val: format!("(Res.ok {})", paren(&b.val)), ty: Ty::Res(Box::new(b.ty)) })
+                    } else if matches!(b.ty, Ty::Res(_)) {
+                        Ok(b)
+                    } else {
+                        Err((line, "and_then: the closure does not return a Result".to_string()))
+                    }
+                };
+                self.scopes.push(HashMap::new());
+                let res = if is_tail {
+                    self.mline(lines, &sanitize(&pname), r.val);
+                    self.bind(&pname, *inner);
+                    self.tr_expr(&cl.body, lines).and_then(|b| wrap(&name, b))
+                } else {
+                    let mut l2 = vec![];
+                    self.mline(&mut l2, &sanitize(&pname), r.val);
+                    self.bind(&pname, *inner);
+                    self.tr_expr(&cl.body, &mut l2).and_then(|b| wrap(&name, b)).map(|b| {
+                        let text = render(&l2, &Tail { expr: b.val, is_comp: true }, true);
+                        Ex { val: text, ty: b.ty }
+                    })
+                };
+                self.scopes.pop();
+                return res;
+            }
+        }
+        const OPTION_METHODS: &[&str] = &["map_or", "map_or_else", "unwrap_or", "unwrap_or_else", "map", "is_some", "is_none", "unwrap", "expect"];
+        if OPTION_METHODS.contains(&name.as_str()) {
+            if let Ty::Opt(_) = self.probe_ty(&m.receiver) {
+                return self.tr_option_method(m, lines);
+            }
+        }
         let r = self.tr_expr(&m.receiver, lines)?;
         let mut args = vec![];
         for a in &m.args {
@@ -1315,6 +2074,10 @@ impl<'a> FnCx<'a> {
                 ("len", 0) => Ok(Ex { val: format!("{}.size", paren(&r.val)), ty: Ty::Usize }),
                 _ => err(m, format!("unsupported method {} on a boxed slice", name)),
             },
+            Ty::Slice => match (name.as_str(), args.len()) {
+                ("len", 0) => Ok(Ex { val: format!("{}.length", paren(&r.val)), ty: Ty::Usize }),
+                _ => err(m, format!("unsupported method {} on a slice", name)),
+            },
             Ty::Bar => match (name.as_str(), args.len()) {
                 ("open", 0) => Ok(Ex { val: format!("{}.open_", paren(&r.val)), ty: Ty::F64 }),
                 ("high", 0) | ("low", 0) | ("close", 0) | ("volume", 0) => Ok(Ex { val: format!("{}.{}", paren(&r.val), name), ty: Ty::F64 }),
@@ -1342,6 +2105,187 @@ impl<'a> FnCx<'a> {
             }
             _ => err(m, format!("method {} on {:?}", name, r.ty)),
         }
+    }
+
+    /// `Option` combinators, by desugaring into the `match` they abbreviate (so that `o.map_or(B, |x| A)`,
+    /// `if let Some(x) = o { A } else { B }` and `match o { Some(x) => A, None => B }` are ONE Lean term).
+    fn tr_option_method(&mut self, m: &syn::ExprMethodCall, lines: &mut Vec<Line>) -> R<Ex> {
+        let name = m.method.to_string();
+        let recv = &m.receiver;
+        // |p| body   (one parameter, no `move`)
+        fn closure1(e: &syn::Expr) -> Option<(syn::Pat, &syn::Expr)> {
+            match strip_parens(e) {
+                syn::Expr::Closure(c) if c.inputs.len() == 1 && c.capture.is_none() => {
+                    let p = match &c.inputs[0] {
+                        syn::Pat::Type(pt) => (*pt.pat).clone(),
+                        o => o.clone(),
+                    };
+                    Some((p, &c.body))
+                }
+                _ => None,
+            }
+        }
+        // || body
+        fn closure0(e: &syn::Expr) -> Option<&syn::Expr> {
+            match strip_parens(e) {
+                syn::Expr::Closure(c) if c.inputs.is_empty() && c.capture.is_none() => Some(&c.body),
+                _ => None,
+            }
+        }
+        // an eagerly evaluated argument (`map_or`'s / `unwrap_or`'s default): Rust evaluates it BEFORE looking at the
+        // option. If it is a total expression this cannot be observed and it is put into the `None` arm; otherwise it
+        // is evaluated in front of the match and the arm refers to the result.
+        let eager = |cx: &mut Self, e: &syn::Expr, lines: &mut Vec<Line>| -> R<syn::Expr> {
+            let (tmp, used) = (cx.tmp, cx.used_monad);
+            let mut scratch = vec![];
+            let probe = cx.tr_expr(e, &mut scratch);
+            cx.tmp = tmp;
+            cx.used_monad = used;
+            if probe.is_ok() && scratch.is_empty() {
+                return Ok(e.clone());
+            }
+            let v = cx.tr_expr(e, lines)?;
+            let t = cx.fresh();
+            cx.pline(lines, &t, v.val);
+            cx.bind(&t, v.ty);
+            let id = syn::Ident::new(&t, e.span());
+            Ok(syn::parse_quote!(#id))
+        };
+        let desugared: syn::Expr = match (name.as_str(), m.args.len()) {
+            ("map_or", 2) => {
+                let (p, a) = closure1(&m.args[1]).ok_or((m.span().start().line, "map_or: second argument is not a one-parameter closure".to_string()))?;
+                let b = eager(self, &m.args[0], lines)?;
+                syn::parse_quote!(match #recv { Some(#p) => #a, None => #b })
+            }
+            ("map_or_else", 2) => {
+                let b = closure0(&m.args[0]).ok_or((m.span().start().line, "map_or_else: first argument is not a closure without parameters".to_string()))?;
+                let (p, a) = closure1(&m.args[1]).ok_or((m.span().start().line, "map_or_else: second argument is not a one-parameter closure".to_string()))?;
+                syn::parse_quote!(match #recv { Some(#p) => #a, None => #b })
+            }
+            ("unwrap_or", 1) => {
+                let b = eager(self, &m.args[0], lines)?;
+                syn::parse_quote!(match #recv { Some(opt_val) => opt_val, None => #b })
+            }
+            ("unwrap_or_else", 1) => {
+                let b = closure0(&m.args[0]).ok_or((m.span().start().line, "unwrap_or_else: argument is not a closure without parameters".to_string()))?;
+                syn::parse_quote!(match #recv { Some(opt_val) => opt_val, None => #b })
+            }
+            ("map", 1) => {
+                let (p, a) = closure1(&m.args[0]).ok_or((m.span().start().line, "map: argument is not a one-parameter closure".to_string()))?;
+                syn::parse_quote!(match #recv { Some(#p) => Some(#a), None => None })
+            }
+            ("is_some", 0) | ("is_none", 0) => {
+                let r = self.tr_expr(recv, lines)?;
+                return Ok(Ex { val: format!("{}.{}", paren(&r.val), if name == "is_some" { "isSome" } else { "isNone" }), ty: Ty::Bool });
+            }
+            ("unwrap", 0) | ("expect", 1) => {
+                // `None` panics: the data-level option IS the panic monad's option
+                let r = self.tr_expr(recv, lines)?;
+                let inner = match &r.ty {
+                    Ty::Opt(t) if **t != Ty::Unknown => (**t).clone(),
+                    _ => return err(m, "unwrap on an option of unknown type"),
+                };
+                let t = self.fresh();
+                let call = self.lift(r.val);
+                self.mline(lines, &t, call);
+                return Ok(Ex { val: t, ty: inner });
+            }
+            _ => return err(m, format!("unsupported method {} on Option", name)),
+        };
+        let line = m.span().start().line;
+        self.tr_expr(&desugared, lines).map_err(|(l, msg)| (if l <= 1 { line } else { l }, msg))
+    }
+
+    /// `[e1, …, en].iter().fold(init, |acc, &x| body)` is unrolled into `body[acc := … body[acc := init, x := e1] …, x := en]`
+    /// (so `[b, c].iter().fold(a, |m, &x| m.max(x))` IS `a.max(b).max(c)`); over a slice / boxed slice it is `List.foldl`.
+    fn tr_iter_fold(&mut self, m: &syn::ExprMethodCall, lines: &mut Vec<Line>) -> R<Ex> {
+        let mut src = strip_parens(&m.receiver);
+        let mut saw_iter = false;
+        loop {
+            match src {
+                syn::Expr::MethodCall(mc) if mc.args.is_empty() && !saw_iter && (mc.method == "copied" || mc.method == "cloned") => src = strip_parens(&mc.receiver),
+                syn::Expr::MethodCall(mc) if mc.args.is_empty() && !saw_iter && (mc.method == "iter" || mc.method == "into_iter") => {
+                    saw_iter = true;
+                    src = strip_parens(&mc.receiver)
+                }
+                _ => break,
+            }
+        }
+        if !saw_iter {
+            return err(m, "fold on something other than `.iter()`");
+        }
+        let cl = match strip_parens(&m.args[1]) {
+            syn::Expr::Closure(c) if c.inputs.len() == 2 && c.capture.is_none() => c,
+            _ => return err(m, "fold: second argument is not a two-parameter closure"),
+        };
+        let pname = |p: &syn::Pat| -> Option<String> {
+            let mut p = p;
+            loop {
+                match p {
+                    syn::Pat::Type(pt) => p = &pt.pat,
+                    syn::Pat::Reference(r) => p = &r.pat,
+                    syn::Pat::Ident(pi) if pi.by_ref.is_none() && pi.subpat.is_none() => return Some(pi.ident.to_string()),
+                    _ => return None,
+                }
+            }
+        };
+        let (accn, xn) = match (pname(&cl.inputs[0]), pname(&cl.inputs[1])) {
+            (Some(a), Some(b)) if a != b => (a, b),
+            _ => return err(m, "fold: closure parameter pattern"),
+        };
+        if !self.outer_assigned(&cl.body).is_empty() {
+            return err(m, "fold closure with side effects");
+        }
+        if let syn::Expr::Array(arr) = src {
+            // Rust's order: the array elements, then `init`, then the closure calls
+            let mut elems = vec![];
+            for e in &arr.elems {
+                elems.push(self.tr_expr(e, lines)?);
+            }
+            let mut acc = self.tr_expr(&m.args[0], lines)?;
+            for x in elems {
+                self.scopes.push(HashMap::new());
+                self.bind_val(&accn, acc.ty.clone(), paren(&acc.val));
+                self.bind_val(&xn, x.ty.clone(), paren(&x.val));
+                let outer_hit = std::mem::replace(&mut self.capture_hit, false);
+                let r = self.tr_expr(&cl.body, lines);
+                self.scopes.pop();
+                let hit = std::mem::replace(&mut self.capture_hit, outer_hit) ;
+                self.capture_hit |= hit;
+                let r = r?;
+                if hit {
+                    return err(m, "fold closure rebinds a name that occurs in the accumulator or in an element");
+                }
+                if r.ty != acc.ty && acc.ty != Ty::Unknown {
+                    return err(m, format!("fold: accumulator type changes from {:?} to {:?}", acc.ty, r.ty));
+                }
+                acc = r;
+            }
+            return Ok(acc);
+        }
+        let list = self.tr_expr(src, lines)?;
+        let list = match list.ty {
+            Ty::Slice => list.val,
+            Ty::Arr => format!("{}.toList", paren(&list.val)),
+            _ => return err(m, "fold over something other than an array literal, a slice or a boxed slice"),
+        };
+        let init = self.tr_expr(&m.args[0], lines)?;
+        self.scopes.push(HashMap::new());
+        self.bind(&accn, init.ty.clone());
+        self.bind(&xn, Ty::F64);
+        let mut bl = vec![];
+        let r = self.tr_expr(&cl.body, &mut bl);
+        self.scopes.pop();
+        let r = r?;
+        let tail = Tail { expr: r.val, is_comp: false };
+        if has_monadic(&bl, &tail) {
+            return err(m, "fallible operation inside a fold closure");
+        }
+        if r.ty != init.ty {
+            return err(m, format!("fold: accumulator type changes from {:?} to {:?}", init.ty, r.ty));
+        }
+        let body = render(&bl, &tail, false);
+        Ok(Ex { val: format!("List.foldl (fun {} {} => {}) {} {}", sanitize(&accn), sanitize(&xn), body, paren(&init.val), paren(&list)), ty: r.ty })
     }
 
     fn tr_macro(&mut self, mac: &syn::Macro, lines: &mut Vec<Line>) -> R<Ex> {
@@ -1455,6 +2399,101 @@ pub fn lean_fn_name(t: &Translator, owner: &str, rust: &str, arg: Option<&Ty>) -
         return format!("{}_fn", rust);
     }
     sanitize(rust)
+}
+
+pub struct FillTarget {
+    root: String,
+    path: Vec<String>,
+    base: Ex,
+    a: Ex,
+    b: Ex,
+    guard: bool,
+}
+
+/// `Some(x)` / `Some(_)`
+fn is_some_of_ident(p: &syn::Pat) -> bool {
+    if let syn::Pat::TupleStruct(ts) = p {
+        if ts.path.is_ident("Some") && ts.elems.len() == 1 {
+            return match &ts.elems[0] {
+                syn::Pat::Ident(pi) => pi.subpat.is_none() && pi.ident != "None",
+                syn::Pat::Wild(_) => true,
+                _ => false,
+            };
+        }
+    }
+    false
+}
+
+/// replace every identifier `name` in a token stream
+fn subst_ident(ts: proc_macro2::TokenStream, name: &str, with: &proc_macro2::TokenStream) -> proc_macro2::TokenStream {
+    let mut out = proc_macro2::TokenStream::new();
+    for t in ts {
+        match t {
+            proc_macro2::TokenTree::Ident(ref i) if i == name => out.extend(with.clone()),
+            proc_macro2::TokenTree::Group(g) => {
+                let mut ng = proc_macro2::Group::new(g.delimiter(), subst_ident(g.stream(), name, with));
+                ng.set_span(g.span());
+                out.extend(std::iter::once(proc_macro2::TokenTree::Group(ng)));
+            }
+            other => out.extend(std::iter::once(other)),
+        }
+    }
+    out
+}
+
+/// `base`, or `base_1`, `base_2`, … — the first that does not occur as an identifier in `body`
+fn lambda_name(base: &str, body: &syn::Expr) -> String {
+    let mut cand = base.to_string();
+    let mut k = 0;
+    while mentions_ident(body, &cand) {
+        k += 1;
+        cand = format!("{}_{}", base, k);
+    }
+    cand
+}
+
+fn is_range_index(e: &syn::Expr) -> bool {
+    matches!(strip_parens(e), syn::Expr::Index(ix) if matches!(&*ix.index, syn::Expr::Range(_)))
+}
+
+fn mentions_ident(e: &syn::Expr, name: &str) -> bool {
+    let mut found = false;
+    crate::tr::scan_tokens(quote::ToTokens::to_token_stream(e), &mut |id, _| {
+        if id == name {
+            found = true;
+        }
+    });
+    found
+}
+
+/// `*x = value` / `{ *x = value; }` / `{ *x = value }` with `value` not mentioning `x` → `value`
+fn deref_store<'e>(body: &'e syn::Expr, var: &str) -> Option<&'e syn::Expr> {
+    let mut e = strip_parens(body);
+    if let syn::Expr::Block(b) = e {
+        if b.block.stmts.len() != 1 {
+            return None;
+        }
+        match &b.block.stmts[0] {
+            syn::Stmt::Expr(x, _) => e = strip_parens(x),
+            _ => return None,
+        }
+    }
+    if let syn::Expr::Assign(a) = e {
+        if let syn::Expr::Unary(u) = strip_parens(&a.left) {
+            if matches!(u.op, syn::UnOp::Deref(_)) && matches!(strip_parens(&u.expr), syn::Expr::Path(p) if p.path.is_ident(var)) && !mentions_ident(&a.right, var) {
+                return Some(&a.right);
+            }
+        }
+    }
+    None
+}
+
+pub fn strip_parens(e: &syn::Expr) -> &syn::Expr {
+    match e {
+        syn::Expr::Paren(p) => strip_parens(&p.expr),
+        syn::Expr::Group(g) => strip_parens(&g.expr),
+        o => o,
+    }
 }
 
 fn one_with_semi(s: &[syn::Stmt]) -> Vec<syn::Stmt> {
@@ -1574,7 +2613,16 @@ pub fn assigned_in_expr(e: &syn::Expr, out: &mut Vec<String>) {
             }
         }
         syn::Expr::Block(b) => block(&b.block, out),
-        syn::Expr::ForLoop(f) => block(&f.body, out),
+        syn::Expr::ForLoop(f) => {
+            assigned_in_expr(&f.expr, out);
+            block(&f.body, out)
+        }
+        syn::Expr::Closure(c) => assigned_in_expr(&c.body, out),
+        syn::Expr::Array(a) => {
+            for x in &a.elems {
+                assigned_in_expr(x, out);
+            }
+        }
         syn::Expr::MethodCall(m) => {
             assigned_in_expr(&m.receiver, out);
             for a in &m.args {
@@ -1582,7 +2630,7 @@ pub fn assigned_in_expr(e: &syn::Expr, out: &mut Vec<String>) {
             }
             // conservatively: methods that may mutate their receiver
             let n = m.method.to_string();
-            const PURE: &[&str] = &["period", "multiplier", "mean", "abs", "sqrt", "max", "min", "clamp", "is_nan", "is_finite", "is_sign_positive", "is_sign_negative", "saturating_sub", "len", "open", "high", "low", "close", "volume", "iter", "enumerate", "unwrap", "into_boxed_slice"];
+            const PURE: &[&str] = &["period", "multiplier", "mean", "abs", "sqrt", "max", "min", "clamp", "is_nan", "is_finite", "is_sign_positive", "is_sign_negative", "saturating_sub", "len", "open", "high", "low", "close", "volume", "iter", "enumerate", "unwrap", "into_boxed_slice", "clone", "map_or", "map_or_else", "unwrap_or", "unwrap_or_else", "map", "is_some", "is_none", "expect", "copied", "cloned", "fold"];
             if n == "fill" {
                 if let Some(r) = root(&m.receiver) {
                     out.push(r);
@@ -1596,12 +2644,28 @@ pub fn assigned_in_expr(e: &syn::Expr, out: &mut Vec<String>) {
         syn::Expr::Call(c) => {
             for a in &c.args {
                 assigned_in_expr(a, out);
+                // UFCS `Trait::method(self, …)` inside a `&mut self` method: `self` is passed on as `&mut Self`
+                if let syn::Expr::Path(p) = strip_parens(a) {
+                    if p.path.is_ident("self") {
+                        if let syn::Expr::Path(fp) = &*c.func {
+                            out.push(format!("self\u{1}{}", fp.path.segments.last().map(|s| s.ident.to_string()).unwrap_or_default()));
+                        }
+                    }
+                }
             }
         }
         syn::Expr::Paren(p) => assigned_in_expr(&p.expr, out),
         syn::Expr::Unary(u) => assigned_in_expr(&u.expr, out),
         syn::Expr::Cast(c) => assigned_in_expr(&c.expr, out),
-        syn::Expr::Reference(r) => assigned_in_expr(&r.expr, out),
+        syn::Expr::Reference(r) => {
+            assigned_in_expr(&r.expr, out);
+            // `&mut place` handed to a callee / used as a loop source: the place counts as written
+            if r.mutability.is_some() {
+                if let Some(x) = root(&r.expr) {
+                    out.push(x);
+                }
+            }
+        }
         syn::Expr::Index(i) => {
             assigned_in_expr(&i.expr, out);
             assigned_in_expr(&i.index, out);
